@@ -490,6 +490,17 @@ private:
     // the last audit: a result that contradicts that belief is blamed on the op only if the key (or, for
     // whole-state results, every key) was sighted right before it.
     bool belief_pinned(int k) const { return !kind_has_capacity(model.cfg.kind) || sighted(k); }
+    // ... but "this key has no live entry because it was never written / was erased / was cleared / its deadline has
+    // passed" is a fact (it follows from observed results and the clock); only "live" and "evicted" are beliefs.
+    bool belief_pinned(int k, const State& P) const
+    {
+        if (belief_pinned(k))
+            return true;
+        const KS& e = P.k[(size_t)k];
+        if (e.st == EXPU)
+            return true;
+        return e.st == ABSENT && e.why != W_EVICTED;
+    }
     bool all_pinned() const
     {
         if (!kind_has_capacity(model.cfg.kind))
@@ -551,6 +562,7 @@ private:
             if (e.st == EXPU || e.why == W_EXPIRED)
             {
                 t.insert("C04.stale");
+                t.insert("C01.expired"); // C01: a value is reported only if the write has not since been undone by expiry
                 d += std::string(where) + ": key " + std::to_string(k) + " returned after its deadline; ";
             }
             else
@@ -631,7 +643,7 @@ private:
         {
             bool pinned = true;
             if (op.kind == INS || op.kind == ERA)
-                pinned = belief_pinned(op.k);
+                pinned = belief_pinned(op.k, P);
             else if (op.kind == INSR || op.kind == INSI || op.kind == ERAR || op.kind == ERAI || op.kind == AGE || op.kind == CLEAN)
                 pinned = all_pinned();
             if (!pinned)
@@ -656,7 +668,15 @@ private:
                     // element may evict a key a later element addresses), which nobody observed: the count alone does
                     // not say which clause is broken.  The driver re-runs the history with the range expanded into
                     // single calls under dense audits; only if those conform is it the range form (C18 / C09.count).
-                    t.insert("UNATTRIBUTED.range-result");
+                    if (!kind_has_capacity(c.kind))
+                    {
+                        // no capacity, no victims: every element's outcome follows from the pre-state and the earlier
+                        // elements of the same range, which the specification computes exactly
+                        t.insert("C09.count");
+                        t.insert("C18.count");
+                    }
+                    else
+                        t.insert("UNATTRIBUTED.range-result");
                     d += "insert_range returned " + std::to_string(obs.n) + ", specification " + (outs.empty() ? std::string("?") : std::to_string(outs[0].res.n)) + "; ";
                     break;
                 case ERA:
